@@ -58,10 +58,15 @@ Init == /\ k = 0
                 \/ \E img \in Images(d) : s = [kind |-> "quad", p |-> MkP(d, sw, kb[1], kb[2], 0, 1), x |-> img]
            \/ \E img \in AllImages(<<1,1,3>>) : s = [kind |-> "asym", p |-> MkP(<<1,1,3>>, <<<<0,0,1>>, WASYM>>, 0, 1, 0, 1), x |-> img]
            \/ s \in PotStates
+           \/ \E b8 \in {-8, 4, 8, 24}, lam \in {0, 1, 2, 16, 64, 1024, 2048, 131072}, f \in {-64, 0, 1, 2, 3, 16, 2048} : s = [kind |-> "frp", beta8 |-> b8, lam |-> lam, f |-> f]
+           \/ \E pr \in {"quad", "rdp", "logcosh", "pls"} : s = [kind |-> "proto", cc |-> [prior |-> pr, ready |-> FALSE, kappaOk |-> TRUE], ever |-> FALSE]
            \/ \E d \in RdpShapes, sw \in { <<<<1,1,1>>, W3>>, <<<<0,1,1>>, W2D>> }, kk \in {0, 1}, g \in {0, 2}, e \in {1, 2} :
                 \E img \in AllImages(d) : s = [kind |-> "rdp", p |-> MkP(d, sw, kk, 1, g, e), x |-> img]
-Steps == CASE s.kind = "quad" -> 5 [] s.kind = "quadp" -> 3 [] s.kind = "asym" -> 1 [] s.kind = "pot" -> 4 [] s.kind = "rdp" -> 4
-Next == k < Steps /\ k' = k + 1 /\ s' = s
+Steps == CASE s.kind = "quad" -> 6 [] s.kind = "quadp" -> 3 [] s.kind = "asym" -> 1 [] s.kind = "pot" -> 4 [] s.kind = "rdp" -> 5 [] s.kind = "frp" -> 2 [] s.kind = "proto" -> 6
+Next == /\ k < Steps /\ k' = k + 1
+        /\ IF s.kind = "proto"
+           THEN \E ev \in ProtoEvents : LET cc == ProtoNext(s.cc, ev) IN s' = [s EXCEPT !.cc = cc, !.ever = (s.ever \/ cc.ready)]
+           ELSE s' = s
 Spec == Init /\ [][Next]_<<s, k>>
 
 Q(n) == s.kind = "quad" /\ k = n
@@ -72,6 +77,8 @@ InvQ2 == Q(2) => QRowIsJacobian(s.p, s.x)
 InvQ3 == Q(3) => QHessIsDirectional(s.p, s.x, Shift(s.x))
 InvQ4 == Q(4) => QPSD(s.p, Shift(s.x)) /\ QPSD(s.p, s.x)
 InvQ5 == Q(5) => QLinearBeta(s.p, s.x, 3)
+\* on an image without differences between neighbours value and gradient vanish (the exact log-cosh instances rely on it)
+InvQ9 == Q(6) => (Flat(s.p, s.x) => QValue4(s.p, s.x) = 0 /\ \A i \in Vox(s.p.dims) : QGrad(s.p, s.x, i) = 0)
 InvQ6 == QP(1) => QRowIsUnit(s.p)
 InvQ7 == QP(2) => QSymmetric(s.p) /\ QLocalRows(s.p)
 InvQ8 == QP(3) => \A cst \in 0..MaxVal : QUniformZero(s.p, cst)
@@ -103,4 +110,14 @@ InvR3 == R(3) => LET v == Shift(s.x) IN
 InvR4 == R(4) => /\ (\A i \in Vox(s.p.dims) : s.x[i] = s.x[1]) => (RValueK(s.p, s.x) = 0 /\ \A i \in Vox(s.p.dims) : RGradK(s.p, s.x, i) = 0)
                  /\ RValueK([s.p EXCEPT !.beta = 3], s.x) = 3 * RValueK(s.p, s.x)
                  /\ \A i \in Vox(s.p.dims) : RGradK([s.p EXCEPT !.beta = 3], s.x, i) = 3 * RGradK(s.p, s.x, i)
+\* exact RDP instances: with gamma = 0 and power-of-two denominators no fixed-point term has a floor error
+InvR5 == R(5) => (RDyadic(s.p, s.x) => \A i \in Vox(s.p.dims) : \A n \in RNb(i) :
+                   LET D == RD(s.p, s.x[i], s.x[n[1]]) IN
+                   /\ (PsiN(s.p, s.x[i], s.x[n[1]]) * 2^KV) % D = 0 /\ (Psi1N(s.p, s.x[i], s.x[n[1]]) * 2^KG) % (D * D) = 0
+                   /\ (Psi20N(s.p, s.x[i], s.x[n[1]]) * 2^KH) % Cube(D) = 0 /\ (Psi11N(s.p, s.x[i], s.x[n[1]]) * 2^KH) % Cube(D) = 0)
+InvF1 == (s.kind = "frp" /\ k = 1) => (s.lam # 0 => FRUniformOnlyZero(s.beta8, s.lam))
+InvF2 == (s.kind = "frp" /\ k = 2) => FRDeterminate(s.beta8, s.lam, s.f)
+InvPr1 == s.kind = "proto" => (~SetterInvalidates(s.cc.prior) /\ s.ever => s.cc.ready)
+InvPr2 == s.kind = "proto" => \A fn \in {"value", "gradient", "hessian", "htimes", "happrox"} :
+                                ~CallMustFail(s.cc, fn) <=> (s.cc.ready /\ s.cc.kappaOk /\ ~NotImplemented(s.cc.prior, fn))
 =============================================================================
